@@ -308,8 +308,12 @@ class Extractor:
                 kinds.append('w')
             elif 'TransMaxInstanceError' in st and 'TransformationCounter' in st and 'return' in st and counter_guard_gap(st) is None:
                 kinds.append('c')
+            elif self.is_rewriting(cls, st):
+                kinds.append('r')
+            elif re.search(r'\breturn\b', st) and 'TransError' not in st:
+                kinds.append('x')       # a way out of the function that neither answers a query nor reports an error
             else:
-                kinds.append('r' if self.is_rewriting(cls, st) else 'n')
+                kinds.append('n')
         return kinds
 
     def conventions(self):
@@ -336,6 +340,12 @@ class Extractor:
         iq = dt.find('if (QueryInstanceOnly)')
         io = dt.find('getOutStream()')
         query_before_output = iq >= 0 and io >= 0 and iq < io and bool(re.match(r'if \(QueryInstanceOnly\)\s*\{?\s*return true;', dt[iq:]))
+        # nothing a query executes on its way there opens a file for writing either (verify() runs for every mode)
+        opener = re.compile(r'raw_fd_ostream|getOutStream\s*\(|ofstream|fopen\s*\(')
+        pre = dt[:iq] if iq >= 0 else dt
+        for b in self.allfuncs.get(('TransformationManager', 'verify'), []):
+            pre += b
+        query_before_output = query_before_output and not opener.search(pre)
         return {'check_counter_validity_ok': ccv_ok, 'check_counter_validity_gap': ccv_gap, 'query_returns_before_output': query_before_output,
                 'default_error': default_error, 'invalid_counter': invalid_counter, 'die_uses_errorcode': die_uses_errorcode,
                 'main_returns_zero': main_returns_zero, 'stdout_msg': out_msg.group(1) if out_msg else None,
